@@ -116,6 +116,80 @@ type Wire struct {
 	violations  []string
 	// log position of every client request seen on the wire: marker tag -> (term, offset)
 	tagPos map[string]*proto.EntryId
+	// coordination requests the coordinator has sent so far: the network may deliver any of them again, late
+	sent []sentMsg
+}
+
+// sentMsg is a coordination request as it left the coordinator.
+type sentMsg struct {
+	kind string // "newterm" | "becomeleader" | "addfollower"
+	node string
+	nt   *proto.NewTermRequest
+	bl   *proto.BecomeLeaderRequest
+	af   *proto.AddFollowerRequest
+}
+
+func (w *Wire) remember(m sentMsg) {
+	w.mu.Lock()
+	defer w.mu.Unlock()
+	if len(w.sent) < 200 {
+		w.sent = append(w.sent, m)
+	}
+}
+
+func (w *Wire) sentCount() int {
+	w.mu.Lock()
+	defer w.mu.Unlock()
+	return len(w.sent)
+}
+
+// deliverLate hands the i-th remembered request to its node once more, as a duplicate that was delayed in the
+// network (a superseded election's message arriving after later ones). Nothing goes back to the coordinator.
+// What the node does is recorded with the same event kinds as a first delivery, so that every node-side oracle
+// (fences, one leader per term, terms never decrease) applies to it.
+func (w *Wire) deliverLate(i int) string {
+	w.mu.Lock()
+	if i >= len(w.sent) {
+		w.mu.Unlock()
+		return "none"
+	}
+	m := w.sent[i]
+	w.mu.Unlock()
+	n, err := w.reach(coordName, m.node)
+	if err != nil {
+		return fmt.Sprintf("late %s to %s lost (%v)", m.kind, m.node, err)
+	}
+	ctx, cancel := context.WithTimeout(context.Background(), 1500*time.Millisecond)
+	defer cancel()
+	switch m.kind {
+	case "newterm":
+		w.hist.add(Event{Kind: "late.newterm", From: coordName, To: m.node, Term: m.nt.Term})
+		inc := n.incarnation()
+		res, err := n.rpc().NewTerm(ctx, m.nt.CloneVT())
+		if err != nil {
+			w.hist.add(Event{Kind: "newterm.refused", From: m.node, To: coordName, Term: m.nt.Term, Err: errStr(err), Detail: "late"})
+			return fmt.Sprintf("late NewTerm(%d) to %s refused", m.nt.Term, m.node)
+		}
+		w.hist.add(Event{Kind: "newterm.answered", From: m.node, To: coordName, Term: m.nt.Term, Head: res.HeadEntryId, Offset: int64(inc), Detail: "late"})
+		n.noteFenced(m.nt.Term, res.HeadEntryId)
+		return fmt.Sprintf("late NewTerm(%d) to %s accepted", m.nt.Term, m.node)
+	case "becomeleader":
+		w.hist.add(Event{Kind: "late.becomeleader", From: coordName, To: m.node, Term: m.bl.Term, Follower: m.bl.FollowerMaps})
+		_, err := n.rpc().BecomeLeader(ctx, m.bl.CloneVT())
+		if err != nil {
+			w.hist.add(Event{Kind: "becomeleader.refused", From: m.node, To: coordName, Term: m.bl.Term, Err: errStr(err), Detail: "late"})
+			return fmt.Sprintf("late BecomeLeader(%d) to %s refused", m.bl.Term, m.node)
+		}
+		n.noteLeader(m.bl.Term)
+		w.hist.add(Event{Kind: "becomeleader.ok", From: m.node, To: coordName, Term: m.bl.Term, Detail: "late"})
+		return fmt.Sprintf("late BecomeLeader(%d) to %s accepted", m.bl.Term, m.node)
+	case "addfollower":
+		w.hist.add(Event{Kind: "late.addfollower", From: coordName, To: m.node, Term: m.af.Term, Detail: m.af.FollowerName, Head: m.af.FollowerHeadEntryId})
+		_, err := n.rpc().AddFollower(ctx, m.af.CloneVT())
+		w.hist.add(Event{Kind: "addfollower.done", From: m.node, To: coordName, Term: m.af.Term, Detail: m.af.FollowerName + " late", Err: errStr(err)})
+		return fmt.Sprintf("late AddFollower(%d,%s) to %s: %v", m.af.Term, m.af.FollowerName, m.node, err)
+	}
+	return "none"
 }
 
 func (w *Wire) noteEntry(e *proto.LogEntry) {
@@ -243,6 +317,7 @@ func (r *coordRPC) NewTerm(ctx context.Context, node model.Server, req *proto.Ne
 	w := r.w
 	name := node.Internal
 	w.hist.add(Event{Kind: "newterm.send", From: coordName, To: name, Term: req.Term})
+	w.remember(sentMsg{kind: "newterm", node: name, nt: req.CloneVT()})
 	n, err := w.reach(coordName, name)
 	if err != nil {
 		w.hist.add(Event{Kind: "newterm.fail", From: coordName, To: name, Term: req.Term, Err: errStr(err)})
@@ -281,6 +356,7 @@ func (r *coordRPC) BecomeLeader(ctx context.Context, node model.Server, req *pro
 	w := r.w
 	name := node.Internal
 	w.hist.add(Event{Kind: "becomeleader.send", From: coordName, To: name, Term: req.Term, Follower: req.FollowerMaps, Offset: int64(req.ReplicationFactor)})
+	w.remember(sentMsg{kind: "becomeleader", node: name, bl: req.CloneVT()})
 	n, err := w.reach(coordName, name)
 	if err != nil {
 		w.hist.add(Event{Kind: "becomeleader.fail", From: coordName, To: name, Term: req.Term, Err: errStr(err)})
@@ -306,6 +382,7 @@ func (r *coordRPC) AddFollower(ctx context.Context, node model.Server, req *prot
 	w := r.w
 	name := node.Internal
 	w.hist.add(Event{Kind: "addfollower.send", From: coordName, To: name, Term: req.Term, Detail: req.FollowerName, Head: req.FollowerHeadEntryId})
+	w.remember(sentMsg{kind: "addfollower", node: name, af: req.CloneVT()})
 	n, err := w.reach(coordName, name)
 	if err != nil {
 		return nil, err
